@@ -259,6 +259,95 @@ class NumSim:
                 raise Untranslatable('%s:%d: response(): method %s no longer maps to _response_bilinear(%s)' % (F, r.lineno, nm, a))
         # the final scaling of response(): recorded as text, checked by the convergence search
         self.response_return = ast.unparse([st for st in r.body if isinstance(st, ast.Return)][-1])
+        # time-base bookkeeping of the impulse-invariance path (separate obligation: a failure here does not hide the rest)
+        self.resp_ii, self.resp_ii_error = None, None
+        try:
+            if '_response_impulse_invariance' not in ms:
+                raise Untranslatable('%s: _response_impulse_invariance not found' % F)
+            self.resp_ii = self.load_response_ii(ms['_response_impulse_invariance'], F)
+            for nm in ('impulse-invariance', 'adhoc'):
+                if nm not in alphas or alphas[nm] != 'result = expr._response_impulse_invariance(xvector, tvector, dtval)':
+                    raise Untranslatable('%s:%d: response(): method %s no longer calls _response_impulse_invariance(xvector, tvector, dtval)' % (F, r.lineno, nm))
+        except Untranslatable as e:
+            self.resp_ii, self.resp_ii_error = None, str(e)
+
+    # ---- sexpr.py: time bases of _response_impulse_invariance ---------------------------
+    def load_response_ii(self, fn, F):
+        """Which time vector is what in LaplaceDomainExpression._response_impulse_invariance:
+             h_base       the instants the impulse response is sampled at (argument of transient_response)
+             interp_base  the abscissae handed to interp1d together with the convolved output y
+             query_base   the instants (minus the delay) at which the interpolant is evaluated
+           each resolved to 'TBcaller' (the parameter tvector, never rebound) or 'TBzero' (arange(Nt) * dtval with
+           Nt = len(tvector)).  Anything that cannot be resolved that way is Untranslatable."""
+        if [a.arg for a in fn.args.args] != ['self', 'xvector', 'tvector', 'dtval']:
+            fail(fn, 'unexpected signature', F)
+        binds = {}          # name -> list of (lineno, value source) of plain assignments anywhere in the function
+        for st in ast.walk(fn):
+            if isinstance(st, (ast.AugAssign, ast.AnnAssign, ast.For, ast.With, ast.NamedExpr)):
+                tg = st.target if not isinstance(st, ast.With) else None
+                if tg is not None and any(isinstance(n, ast.Name) and n.id in ('tvector', 'th', 'ty', 'Nt', 'dtval', 'delay') for n in ast.walk(tg)):
+                    fail(st, 'a time-base name is rebound', F)
+            if isinstance(st, ast.Assign):
+                for tg in st.targets:
+                    for n in ast.walk(tg):
+                        if isinstance(n, ast.Name):
+                            binds.setdefault(n.id, []).append((st.lineno, ast.unparse(st.value), isinstance(tg, ast.Name)))
+        for nm in ('tvector', 'dtval'):
+            if nm in binds:
+                fail(fn, 'parameter %s is rebound' % nm, F)
+
+        def single(nm):
+            b = binds.get(nm, [])
+            if len(b) != 1 or not b[0][2]:
+                fail(fn, '%s is not bound exactly once by a plain assignment' % nm, F)
+            return b[0]
+        if single('Nt')[1] != 'len(tvector)':
+            fail(fn, 'Nt is not len(tvector)', F)
+
+        def base(name, before, depth=0):
+            if depth > 3:
+                fail(fn, 'alias chain too long', F)
+            if name == 'tvector':
+                return 'TBcaller'
+            ln, src, _ = single(name)
+            if ln >= before:
+                fail(fn, '%s is bound after its use' % name, F)
+            if src == 'arange(Nt) * dtval' and single('Nt')[0] < ln:
+                return 'TBzero'
+            if src.isidentifier():
+                return base(src, ln, depth + 1)
+            fail(fn, 'cannot resolve the time base %s = %s' % (name, src), F)
+        body = [st for st in fn.body if not is_doc(st)]
+        # impulse response samples
+        hs = [st for st in body if isinstance(st, ast.Assign) and ast.unparse(st.targets[0]) == 'hvector']
+        if len(hs) != 1 or not (isinstance(hs[0].value, ast.Call) and ast.unparse(hs[0].value.func) == 'H.transient_response'
+                                and len(hs[0].value.args) == 1 and isinstance(hs[0].value.args[0], ast.Name) and not hs[0].value.keywords):
+            fail(fn, 'hvector is not H.transient_response(<name>)', F)
+        h_base = base(hs[0].value.args[0].id, hs[0].lineno)
+        ys = [st for st in body if isinstance(st, ast.Assign) and ast.unparse(st.targets[0]) == 'y']
+        if len(ys) != 1 or ast.unparse(ys[0].value) != 'convolve(xvector, hvector)[0:Nt] * dtval':
+            fail(fn, 'y is not convolve(xvector, hvector)[0:Nt] * dtval', F)
+        # the delay branch
+        ifs = [st for st in body if isinstance(st, ast.If) and 'delay' in ast.unparse(st.test)]
+        if len(ifs) != 1 or ast.unparse(ifs[0].test) != 'delay != 0.0' or ifs[0].orelse:
+            fail(fn, 'expected exactly one `if delay != 0.0:` without else', F)
+        ib = [st for st in ifs[0].body if not is_doc(st)]
+        if len(ib) != 2 or not all(isinstance(st, ast.Assign) and ast.unparse(st.targets[0]) == 'y' for st in ib):
+            fail(ifs[0], 'delay branch is not two assignments to y', F)
+        c1, c2 = ib[0].value, ib[1].value
+        if not (isinstance(c1, ast.Call) and ast.unparse(c1.func) == 'interp1d' and len(c1.args) == 2 and isinstance(c1.args[0], ast.Name)
+                and ast.unparse(c1.args[1]) == 'y'
+                and sorted((k.arg, ast.unparse(k.value)) for k in c1.keywords) == [('bounds_error', 'False'), ('fill_value', '0')]):
+            fail(ib[0], 'unexpected interpolant', F)
+        interp_base = base(c1.args[0].id, ifs[0].lineno)
+        if not (isinstance(c2, ast.Call) and ast.unparse(c2.func) == 'y' and len(c2.args) == 1 and not c2.keywords
+                and isinstance(c2.args[0], ast.BinOp) and isinstance(c2.args[0].op, ast.Sub) and isinstance(c2.args[0].left, ast.Name)
+                and ast.unparse(c2.args[0].right) == 'float(delay)'):
+            fail(ib[1], 'the interpolant is not evaluated at <time vector> - float(delay)', F)
+        query_base = base(c2.args[0].left.id, ifs[0].lineno)
+        if not (isinstance(body[-1], ast.Return) and ast.unparse(body[-1]) == 'return y'):
+            fail(fn, 'does not end with `return y`', F)
+        return {'h': h_base, 'interp': interp_base, 'query': query_base, 'line': fn.lineno}
 
     # ---- Coq ----------------------------------------------------------------------
     def coq(self, ir):
@@ -274,7 +363,7 @@ class NumSim:
     def text(self):
         out = ['(* GENERATED by tools/tr_numsim.py from %s.\n   Do not edit: regenerated from the working tree on every run. *)' %
                ', '.join('%s (sha256 %s)' % (k, v[:12]) for k, v in sorted(self.files.items())),
-               'From Coq Require Import ZArith List.', 'Require Import LT.FieldSec LT.NumEval LT.NumEvalSim.', 'Import ListNotations.', '',
+               'From Coq Require Import ZArith List.', 'Require Import LT.FieldSec LT.NumEval LT.NumEvalSim LT.NumEvalResp.', 'Import ListNotations.', '',
                'Section Gen.\nVariable K : fld.\n']
         names = []
         for (tag, mn), d in sorted(self.defs.items()):
@@ -298,8 +387,21 @@ class NumSim:
             out.append('Definition rmodel_%s : companion := MkCompanion %s %s %s %s.\n' % (cn, r['R'][0], r['R'][1], r['V'][0], r['V'][1]))
         out.append('(* lcapy/simulator.py SimulatedComponent.stamp *)')
         out.append('Definition stamp_A : list (cnode * cnode * csign) := [%s].\n' % '; '.join('(%s, %s, %s)' % e for e in self.stamp_A))
+        out.append(self.resp_text())
         out.append('Ltac sim_unfold := cbv beta iota zeta delta [%s kz kpos] in *.\n' % ' '.join(names))
         return '\n'.join(out)
+
+
+def _resp_text(self):
+    if self.resp_ii is None:
+        return '(* lcapy/sexpr.py _response_impulse_invariance: time bases NOT translated: %s *)\n' % str(self.resp_ii_error).replace('*)', '* )')
+    d = self.resp_ii
+    return ('(* lcapy/sexpr.py:%d  _response_impulse_invariance: which time vector is used where *)\n'
+            'Definition resp_ii_h_base : tbase := %s.\nDefinition resp_ii_interp_base : tbase := %s.\n'
+            'Definition resp_ii_query_base : tbase := %s.\n' % (d['line'], d['h'], d['interp'], d['query']))
+
+
+NumSim.resp_text = _resp_text
 
 
 if __name__ == '__main__':
